@@ -180,6 +180,17 @@ def inboundMsg (s : Server) (i : Nat) (qos : Nat) (dup retain : Bool) (id : Nat)
 /-- the state in which an accepted publish is routed: the retained store updated when the message has the retain flag -/
 def retainedState (s : Server) (pk : Msg) : Server := if pk.retain then retainMsg s pk else s
 
+theorem retainMsg_objs (s : Server) (pk : Msg) : (retainMsg s pk).objs = s.objs := by
+  unfold retainMsg; split <;> rfl
+
+theorem retainedState_objs (s : Server) (pk : Msg) : (retainedState s pk).objs = s.objs := by
+  unfold retainedState; split
+  · exact retainMsg_objs s pk
+  · rfl
+
+theorem getObj_retainedState (s : Server) (pk : Msg) (k : Nat) : getObj (retainedState s pk) k = getObj s k :=
+  getObj_of_objs_eq (retainedState_objs s pk) k
+
 theorem setObj_getObj_self (s : Server) (i : Nat) : setObj s i (getObj s i) = s := by
   unfold setObj getObj
   have : s.objs.set i (s.objs.getD i {}) = s.objs := by
@@ -213,6 +224,43 @@ theorem processPublish_accepted_shape (s : Server) (i : Nat) (dup retain : Bool)
   have hi : ((none : Option String) == some "ignore") = false := by decide
   simp only [h0, if_false, hhook, hr, he, hi, Bool.false_and, Bool.false_eq_true]
   rw [if_pos (by decide)]
+  rfl
+
+/-- the state after `processPublish` dropped the in-flight record the client held under the packet id of its new
+    PUBLISH (a record that is not a PUBREC: the id is being reused) -/
+def recordDropped (s : Server) (i id : Nat) : Server :=
+  setObj { setObj s i (flDelete (getObj s i) id).1 with info := { s.info with inflight := s.info.inflight - 1 } } i
+    (flDelete (getObj s i) id).1
+
+/-- **Item 1, QoS 0, with an in-flight record under the packet id** that is not a PUBREC: the record is dropped
+    first, then the message is routed as in `processPublish_accepted_shape` -/
+theorem processPublish_accepted_shape_record (s : Server) (i : Nat) (dup retain : Bool) (id : Nat) (topic payload : Str)
+    (me : Nat) (pki : Msg)
+    (hin : (getObj s i).inline = false) (hv : isValidFilter topic true = true)
+    (hrq : (getObj s i).recvQuota ≠ 0) (hacl : aclOk s (getObj s i).id topic true = true)
+    (hfl : flGet (getObj s i) id = some pki) (hty : pki.type ≠ 5) (hne : topic ≠ [])
+    (hhook : assocGet s.pubHook topic = none) :
+    processPublish s i 0 dup retain id topic payload me none =
+      ((publishToSubscribers (retainedState (recordDropped s i id) (inboundMsg s i 0 dup retain id topic payload me))
+          (inboundMsg s i 0 dup retain id topic payload me)).1,
+       (publishToSubscribers (retainedState (recordDropped s i id) (inboundMsg s i 0 dup retain id topic payload me))
+          (inboundMsg s i 0 dup retain id topic payload me)).2, none) := by
+  have hrq' : ((getObj s i).recvQuota == 0) = false := by simpa using hrq
+  have hne' : topic.isEmpty = false := by cases topic <;> simp_all
+  have hty' : (pki.type == 5) = false := by simpa using hty
+  unfold processPublish
+  simp only [hin, hv, hacl, hrq', hfl, hty', Bool.not_false, Bool.not_true, Bool.true_and,
+    Bool.false_eq_true, if_false, if_true, Option.isSome_some, hne']
+  have h0 : ¬ (0 > s.caps.maximumQos) := Nat.not_lt_zero _
+  have hr : ((none : Option String) == some "reject") = false := by decide
+  have he : ((none : Option String) == some "err") = false := by decide
+  have hi : ((none : Option String) == some "ignore") = false := by decide
+  have hh : assocGet (recordDropped s i id).pubHook topic = none := hhook
+  have hS : setObj { setObj s i (flDelete (getObj s i) id).1 with
+      info := { s.info with inflight := s.info.inflight - 1 } } i (flDelete (getObj s i) id).1 = recordDropped s i id := rfl
+  simp only [Bool.and_false, Bool.false_eq_true, if_false, hS, gt_iff_lt, Nat.not_lt_zero, hh, hr, he, hi,
+    Bool.false_and]
+  rw [if_pos (by rfl)]
   rfl
 
 /-- the PUBACK record `processPublish` files (and, for QoS 1, removes again) for an inbound QoS 1 publish -/
@@ -268,6 +316,154 @@ theorem processPublish_accepted_shape_qos1 (s : Server) (i : Nat) (dup retain : 
       = true) := by rw [hlive]; exact Bool.false_ne_true
   refine (if_neg hl).trans ?_
   rfl
+
+theorem lt_of_recvQuota_ne_zero (s : Server) (i : Nat) (h : (getObj s i).recvQuota ≠ 0) : i < s.objs.length := by
+  apply Classical.byContradiction
+  intro hn
+  apply h
+  unfold getObj
+  rw [List.getD_eq_getElem?_getD, List.getElem?_eq_none (Nat.le_of_not_lt hn)]
+  rfl
+
+theorem filter_id_of_flGet_none (c : Client) (id : Nat) (h : flGet c id = none) :
+    c.inflight.filter (fun m => m.id != id) = c.inflight := by
+  rw [List.filter_eq_self]
+  intro m hm
+  unfold flGet at h
+  have := List.find?_eq_none.mp h m hm
+  simpa using this
+
+/-- the QoS 1 bookkeeping cancels: PUBACK filed and removed, quota taken and returned -/
+theorem pubackDone_pubackFiled (s0 : Server) (i id : Nat) (hfl : flGet (getObj s0 i) id = none)
+    (hq : (getObj s0 i).recvQuota ≠ 0) (hm : (getObj s0 i).recvQuota ≤ (getObj s0 i).maxRecv) :
+    pubackDone (pubackFiled s0 i id) i id = s0 := by
+  have hlt := lt_of_recvQuota_ne_zero s0 i hq
+  have hpos : (getObj s0 i).recvQuota > 0 := Nat.pos_of_ne_zero hq
+  have hdec : decRecv (getObj s0 i) = { getObj s0 i with recvQuota := (getObj s0 i).recvQuota - 1 } := by
+    unfold decRecv; rw [if_pos hpos]
+  have h2 : getObj (modObj s0 i decRecv) i = { getObj s0 i with recvQuota := (getObj s0 i).recvQuota - 1 } := by
+    unfold modObj; rw [getObj_setObj_eq s0 i _ hlt, hdec]
+  have hfl2 : flGet ({ getObj s0 i with recvQuota := (getObj s0 i).recvQuota - 1 } : Client) id = none := hfl
+  have hset : flSet ({ getObj s0 i with recvQuota := (getObj s0 i).recvQuota - 1 } : Client) (pubackMsg (modObj s0 i decRecv) id) =
+      ({ getObj s0 i with recvQuota := (getObj s0 i).recvQuota - 1,
+                          inflight := (getObj s0 i).inflight ++ [pubackMsg (modObj s0 i decRecv) id] }, true) := by
+    unfold flSet
+    have : (pubackMsg (modObj s0 i decRecv) id).id = id := rfl
+    rw [this, hfl2]
+    rfl
+  have hF : pubackFiled s0 i id =
+      { s0 with
+        objs := s0.objs.set i
+          { getObj s0 i with
+            recvQuota := (getObj s0 i).recvQuota - 1,
+            inflight := (getObj s0 i).inflight ++ [pubackMsg (modObj s0 i decRecv) id] },
+        info := { s0.info with inflight := s0.info.inflight + 1 } } := by
+    unfold pubackFiled
+    simp only [h2, hset, if_true]
+    simp only [setObj, modObj, List.set_set]
+  have hG : getObj (pubackFiled s0 i id) i =
+      { getObj s0 i with
+        recvQuota := (getObj s0 i).recvQuota - 1,
+        inflight := (getObj s0 i).inflight ++ [pubackMsg (modObj s0 i decRecv) id] } := by
+    rw [hF]
+    simp only [getObj, List.getD_eq_getElem?_getD]
+    rw [List.getElem?_set_self hlt]; rfl
+  have hfilt : ((getObj s0 i).inflight ++ [pubackMsg (modObj s0 i decRecv) id]).filter (fun m => m.id != id) =
+      (getObj s0 i).inflight := by
+    rw [List.filter_append, filter_id_of_flGet_none _ _ hfl]
+    have : (pubackMsg (modObj s0 i decRecv) id).id = id := rfl
+    simp [this]
+  have hfind : (((getObj s0 i).inflight ++ [pubackMsg (modObj s0 i decRecv) id]).find? (fun m => m.id == id)).isSome
+      = true := by
+    rw [List.find?_append]
+    have : (pubackMsg (modObj s0 i decRecv) id).id = id := rfl
+    simp [this]
+  have hfinal : incRecv { getObj s0 i with recvQuota := (getObj s0 i).recvQuota - 1 } = getObj s0 i := by
+    unfold incRecv
+    have h1 : (getObj s0 i).recvQuota - 1 < (getObj s0 i).maxRecv := by omega
+    have h2 : (getObj s0 i).recvQuota - 1 + 1 = (getObj s0 i).recvQuota := by omega
+    simp only [h1, if_true, h2]
+  unfold pubackDone
+  rw [hG]
+  simp only [flDelete, flGet, hfilt, hfind, if_true]
+  rw [show incRecv _ = getObj s0 i from hfinal, hF]
+  simp only [setObj, List.set_set]
+  have ho : s0.objs.set i (getObj s0 i) = s0.objs := congrArg Server.objs (setObj_getObj_self s0 i)
+  have hi : s0.info.inflight + 1 - 1 = s0.info.inflight := by omega
+  rw [ho, hi]
+
+
+/-- the publisher's liveness, connection and version are what they were when the PUBACK is written -/
+theorem pubackFiled_obj (s0 : Server) (i id : Nat) :
+    (getObj (pubackFiled s0 i id) i).isOpen = (getObj s0 i).isOpen ∧
+    (getObj (pubackFiled s0 i id) i).peerGone = (getObj s0 i).peerGone ∧
+    (getObj (pubackFiled s0 i id) i).inline = (getObj s0 i).inline ∧
+    (getObj (pubackFiled s0 i id) i).conn = (getObj s0 i).conn ∧
+    (getObj (pubackFiled s0 i id) i).ver = (getObj s0 i).ver := by
+  have h1 : ∀ c : Client, (decRecv c).isOpen = c.isOpen ∧ (decRecv c).peerGone = c.peerGone ∧
+      (decRecv c).inline = c.inline ∧ (decRecv c).conn = c.conn ∧ (decRecv c).ver = c.ver := by
+    intro c; unfold decRecv; split <;> exact ⟨rfl, rfl, rfl, rfl, rfl⟩
+  have h2 : ∀ (c : Client) (m : Msg), (flSet c m).1.isOpen = c.isOpen ∧ (flSet c m).1.peerGone = c.peerGone ∧
+      (flSet c m).1.inline = c.inline ∧ (flSet c m).1.conn = c.conn ∧ (flSet c m).1.ver = c.ver := by
+    intro c m; unfold flSet; split <;> exact ⟨rfl, rfl, rfl, rfl, rfl⟩
+  have h3 : (getObj (modObj s0 i decRecv) i).isOpen = (getObj s0 i).isOpen ∧
+      (getObj (modObj s0 i decRecv) i).peerGone = (getObj s0 i).peerGone ∧
+      (getObj (modObj s0 i decRecv) i).inline = (getObj s0 i).inline ∧
+      (getObj (modObj s0 i decRecv) i).conn = (getObj s0 i).conn ∧
+      (getObj (modObj s0 i decRecv) i).ver = (getObj s0 i).ver := by
+    unfold modObj
+    rcases getObj_setObj_self_cases s0 i (decRecv (getObj s0 i)) with e | e <;> rw [e]
+    · exact h1 _
+    · exact ⟨rfl, rfl, rfl, rfl, rfl⟩
+  unfold pubackFiled
+  extract_lets s2 r s3
+  have h4 : (getObj s3 i).isOpen = (getObj s0 i).isOpen ∧ (getObj s3 i).peerGone = (getObj s0 i).peerGone ∧
+      (getObj s3 i).inline = (getObj s0 i).inline ∧ (getObj s3 i).conn = (getObj s0 i).conn ∧
+      (getObj s3 i).ver = (getObj s0 i).ver := by
+    rcases getObj_setObj_self_cases s2 i r.1 with e | e
+    · show (getObj (setObj s2 i r.1) i).isOpen = _ ∧ _
+      rw [e]
+      obtain ⟨a1, a2, a3, a4, a5⟩ := h2 (getObj s2 i) (pubackMsg s2 id)
+      obtain ⟨b1, b2, b3, b4, b5⟩ := h3
+      exact ⟨a1.trans b1, a2.trans b2, a3.trans b3, a4.trans b4, a5.trans b5⟩
+    · show (getObj (setObj s2 i r.1) i).isOpen = _ ∧ _
+      rw [e]; exact h3
+  split
+  · exact h4
+  · exact h4
+
+/-- **Item 1, QoS 1, in plain terms.**  An accepted QoS 1 publish of a live network client whose receive quota is
+    within its maximum: the PUBACK (reason code from `QosCodes[1]`) is written to the publisher, then the message is
+    routed by `publishToSubscribers` — in the SAME state as for QoS 0 (the retained store updated): filing and
+    removing the PUBACK record and taking and returning the receive quota cancel. -/
+theorem processPublish_accepted_qos1 (s : Server) (i : Nat) (dup retain : Bool) (id : Nat) (topic payload : Str)
+    (me : Nat)
+    (hopen : (getObj s i).isOpen = true) (hpeer : (getObj s i).peerGone = false)
+    (hin : (getObj s i).inline = false) (hv : isValidFilter topic true = true)
+    (hrq : (getObj s i).recvQuota ≠ 0) (hmax : (getObj s i).recvQuota ≤ (getObj s i).maxRecv)
+    (hacl : aclOk s (getObj s i).id topic true = true)
+    (hfl : flGet (getObj s i) id = none) (hne : topic ≠ [])
+    (hhook : assocGet s.pubHook topic = none) (hmq : 1 ≤ s.caps.maximumQos) :
+    processPublish s i 1 dup retain id topic payload me none =
+      ((publishToSubscribers (retainedState s (inboundMsg s i 1 dup retain id topic payload me))
+          (inboundMsg s i 1 dup retain id topic payload me)).1,
+       [Out.wrote (getObj s i).conn (.ack (getObj s i).ver 4 id 1)] ++
+       (publishToSubscribers (retainedState s (inboundMsg s i 1 dup retain id topic payload me))
+          (inboundMsg s i 1 dup retain id topic payload me)).2, none) := by
+  obtain ⟨a1, a2, a3, a4, a5⟩ := pubackFiled_obj (retainedState s (inboundMsg s i 1 dup retain id topic payload me)) i id
+  rw [getObj_retainedState] at a1 a2 a3 a4 a5
+  have hlive : dead (getObj (pubackFiled (retainedState s (inboundMsg s i 1 dup retain id topic payload me)) i id) i)
+      = false := dead_of_live (a1.trans hopen) (a2.trans hpeer)
+  rw [processPublish_accepted_shape_qos1 s i dup retain id topic payload me hin hv hrq hacl hfl hne hhook hmq hlive,
+    pubackDone_pubackFiled _ i id (by rw [getObj_retainedState]; exact hfl) (by rw [getObj_retainedState]; exact hrq)
+      (by rw [getObj_retainedState]; exact hmax)]
+  have hw : writeMsg (pubackFiled (retainedState s (inboundMsg s i 1 dup retain id topic payload me)) i id) i
+      (pubackMsg (retainedState s (inboundMsg s i 1 dup retain id topic payload me)) id) =
+      [Out.wrote (getObj s i).conn (.ack (getObj s i).ver 4 id 1)] := by
+    unfold writeMsg
+    simp only [a1, a2, a3, a4, a5, hopen, hpeer, hin]
+    rfl
+  rw [hw]
 
 /-! ### a QoS 0 delivery files nothing: in-flight records and send quota of every object are kept -/
 
@@ -373,17 +569,6 @@ theorem nextImmediate_none (s : Server) (i : Nat) (h : ∀ m ∈ (getObj s i).in
   split <;> rfl
 
 /-! ### the op -/
-
-theorem retainMsg_objs (s : Server) (pk : Msg) : (retainMsg s pk).objs = s.objs := by
-  unfold retainMsg; split <;> rfl
-
-theorem retainedState_objs (s : Server) (pk : Msg) : (retainedState s pk).objs = s.objs := by
-  unfold retainedState; split
-  · exact retainMsg_objs s pk
-  · rfl
-
-theorem getObj_retainedState (s : Server) (pk : Msg) (k : Nat) : getObj (retainedState s pk) k = getObj s k :=
-  getObj_of_objs_eq (retainedState_objs s pk) k
 
 /-- a topic name acceptable to `IsValidFilter(topic, true)` contains no wildcard character -/
 theorem isValidFilter_pub_no_wild (topic : Str) (hv : isValidFilter topic true = true) :
